@@ -2025,19 +2025,11 @@ fn boundary_cases() -> Vec<(String, usize, String, String)> {
     v
 }
 
-/// The open finding (if any) whose documented shape covers a failing boundary case.
-fn boundary_finding(family: &str, n: usize) -> Option<&'static str> {
+/// The open finding (if any) whose documented shape covers a failing boundary case. (F-C05-9, -10, -11, -13 are
+/// repaired — d0940df, d6cca87, b710daa —: their families are must-pass now.)
+fn boundary_finding(family: &str, _n: usize) -> Option<&'static str> {
     match family {
-        "import-items" if n >= 128 => Some("F-C05-9"),
-        "nested-arg-size" | "match-size" if n >= 256 => Some("F-C05-10"),
-        "nested-arg-ellipsis-first" | "match-ellipsis-first" if n >= 127 => Some("F-C05-11"),
-        "nested-arg-index" | "match-index-tuple" | "match-index-list" | "nested-arg-ellipsis-last" | "match-ellipsis-last" | "match-multi-value"
-            if n >= 128 =>
-        {
-            Some("F-C05-11")
-        }
         "deferred-self-capture" => Some("F-C05-12"),
-        "chain-assign-statements" | "index-assign-statements" | "chain-assign-values" if n >= 100 => Some("F-C05-13"),
         _ => None,
     }
 }
@@ -2384,7 +2376,7 @@ fn real_main() -> i32 {
         }
         let n = cx.known_counts.get(&id).copied().unwrap_or(0);
         // findings of the boundary sweep: their witnesses are the sweep's own cases (run above)
-        if matches!(id.as_str(), "F-C05-9" | "F-C05-10" | "F-C05-11" | "F-C05-12" | "F-C05-13") && n > 0 {
+        if id == "F-C05-12" && n > 0 {
             failing.push(format!("{} boundary-sweep cases of its families give a wrong value / spurious error", n));
         }
         if known && !failing.is_empty() {
